@@ -69,8 +69,24 @@ def member(pc, v):
     return v in [float(x) for x in pc.feasible_values]
 
 
+class Refused(Exception):
+    """the converter constructor raised; .bad: the refusal is NOT the allowed one (LOG / REVERSE_LOG with a non-positive bound)"""
+
+    def __init__(self, job, pc, e):
+        Exception.__init__(self, '%s: %s' % (type(e).__name__, str(e)[:120]))
+        scaled_log = job['pc'].get('scale') in ('LOG', 'REVERSE_LOG') and pc.type == vz.ParameterType.DOUBLE
+        self.bad = not (isinstance(e, ValueError) and scaled_log and (pc.bounds[0] <= 0 or pc.bounds[1] <= 0))
+
+
 def make_converter(job, getter=None):
     pc = make_pc(job['pc'])
+    try:
+        return _make_converter(job, pc, getter)
+    except Exception as e:  # noqa: BLE001
+        raise Refused(job, pc, e)
+
+
+def _make_converter(job, pc, getter=None):
     o = job.get('opts', {})
     mdi = o.get('max_discrete_indices', 10)
     if mdi == 'inf':
@@ -199,7 +215,10 @@ def job_scaler(job):
             bij = core.ModelInputArrayBijector.scaler_from_spec(spec)
     except Exception as e:  # noqa: BLE001
         out['raised'] = '%s: %s' % (type(e).__name__, str(e)[:120])
-        return out, False       # refused: not a violation
+        lo, hi = pc.bounds
+        allowed = isinstance(e, ValueError) and job['pc'].get('scale') in ('LOG', 'REVERSE_LOG') and (lo <= 0 or hi <= 0)
+        out['clauses'] = {'refuses_only_nonpositive_log_bounds': bool(allowed)}
+        return out, not allowed
     lo, hi = pc.bounds
     cl = {}
     with np.errstate(all='ignore'):
@@ -372,7 +391,10 @@ def main():
         res, bad = np_facts()
     else:
         job = json.load(open(a))['job']
-        res, bad = JOBS[job['kind']](job)
+        try:
+            res, bad = JOBS[job['kind']](job)
+        except Refused as r:
+            res, bad = {'constructor_raised': str(r), 'clauses': {'refuses_only_nonpositive_log_bounds': not r.bad}}, r.bad
     assert env.repo_clean_snapshot() == snap, 'replay modified the repository'
     print(json.dumps(res, default=repr))
     print('REPRODUCED' if bad else 'NOT-REPRODUCED')
